@@ -249,7 +249,7 @@ CHECKS["C20"] = {
                             "preexisting_longer_file", "fileobj_recording_exact", "cr_or_crlf_file", "generator_result_rejected",
                             "caller_edited_its_copy_of_default_stacks", "failed_write_left_target_untouched",
                             "open_error_propagated_read", "open_error_propagated_write"]
-                           + ["returns_" + k for k in ("none", "empty_list", "empty_tuple", "same", "new", "list2", "tuple3", "gen", "int", "obj", "str", "list_bad")],
+                           + ["returns_" + k for k in ("none", "empty_list", "empty_tuple", "same", "new", "list2", "tuple3", "gen", "int", "obj", "str", "list_bad", "repeat2", "list_none")],
         "components": {"real": REAL_COMMON + ["parse_string / parse_file / write_string / write_file", "default stacks", "BlockMiddleware.transform", "shipped middlewares mixed into stacks"],
                        "stub": ["raw device + directory: SimRaw / SimDisk", "builtins.open as seen by bibtexparser.entrypoint", "locale / platform newline (simulated)",
                                 "probe middlewares TagBlock / TagLib / DropComments / Protocol", "recording file object"]},
